@@ -2,7 +2,8 @@ package main
 
 // The enumerated space. Every (type, value class) below is crossed with every n, every row limit and
 // every wire format. quick and thorough use the same types, values and base n (so that class signatures are
-// identical in both tiers); thorough adds more batch-boundary sizes and row limits.
+// identical in both tiers: the size part of a signature is a bucket, not a number); thorough adds more
+// batch-boundary sizes and row limits.
 
 import (
 	"fmt"
@@ -133,11 +134,14 @@ func timestamp(name, typ, min, max, typical, preEpoch string) *typeSpec {
 
 func newGrid(quick bool) *grid {
 	g := &grid{}
-	g.ns = []int{0, 1, 2, 2048, 2049, 5000}
+	// n: empty, one row, two rows (row separators), one row more than DuckDB's 2048-row vector (second Arrow batch).
+	// thorough adds the exactly-full batch, three batches, the JSON writer's 1000-row flush interval, and
+	// the Arrow endpoint's batch-size constant (10000) with their neighbours.
+	g.ns = []int{0, 1, 2, 2049}
 	g.limits = []int{0, 1, 2048}
 	if !quick {
-		g.ns = append(g.ns, 3, 999, 1000, 1001, 2047, 4096, 4097, 10000, 10001)
-		g.limits = append(g.limits, 2, 1000, 2047, 2049, 4096)
+		g.ns = []int{0, 1, 2, 3, 999, 1000, 1001, 2047, 2048, 2049, 4096, 4097, 5000, 10000, 10001}
+		g.limits = []int{0, 1, 2, 1000, 2047, 2048, 2049, 4096}
 	}
 	g.names = []string{"c", `a"b`, `a\b`, "tab\there", "nl\nx", "ü€𝄞", `A`, "sp ace", "ctl\x01\x1f", `'q'`}
 
@@ -183,7 +187,8 @@ func newGrid(quick bool) *grid {
 		}},
 		{name: "blob", sqlType: "BLOB", vals: []valSpec{
 			lit("typical", `\xDE\xAD\xBE\xEF`), lit("empty", ""), lit("printable", "abc"), lit("zero-byte", `\x00`),
-			lit("high-bytes", `\xFF\xFE\x80`), lit("utf8-bytes", `\xC3\xA9`), lit("quote-backslash", `\x22\x5C`)}},
+			lit("high-bytes", `\xFF\xFE\x80`), lit("utf8-bytes", `\xC3\xA9`), lit("quote-backslash", `\x22\x5C`),
+			lit("apostrophe", `\x27`), lit("punctuation", " !#$%&()*+,-./:;<=>?@[]^_`{|}~"), lit("del-and-controls", `\x7F\x1F\x0A\x09`)}},
 		{name: "date", sqlType: "DATE", kind: "date", vals: []valSpec{lit("typical", "2024-02-29"), lit("min", "5877642-06-25 (BC)"), lit("max", "5881580-07-10"),
 			lit("zero", "1970-01-01"), lit("pre-epoch", "1969-12-31"), lit("year-1", "0001-01-01")}},
 		{name: "time", sqlType: "TIME", kind: "time", vals: []valSpec{lit("typical", "12:34:56.789"), lit("zero", "00:00:00"), lit("max", "23:59:59.999999"),
